@@ -256,12 +256,20 @@ void MEDDLY::copy_MT::_compute(int L, unsigned in,
 #endif
 
     //
+    // A primed-level node reached from a primed level cannot be
+    // traversed row by row as a relation node: copy it directly, and
+    // keep it out of the compute table, whose entries (keyed by A only)
+    // are relative to the unprimed level.
+    //
+    const bool direct = can_use_relation_nodes && (L<0) && (Alevel<0);
+
+    //
     // Check compute table
     //
     ct_vector key(ct->getKeySize());
     ct_vector res(ct->getResultSize());
     key[0].setN(A);
-    if (ct->findCT(key, res)) {
+    if (!direct && ct->findCT(key, res)) {
         //
         // compute table 'hit'
         //
@@ -287,7 +295,7 @@ void MEDDLY::copy_MT::_compute(int L, unsigned in,
         //
 
         unpacked_node* Cu = nullptr;
-        if (can_use_relation_nodes) {
+        if (can_use_relation_nodes && !direct) {
             //
             // Use relation nodes for relations, so we can copy
             // any implicit representation to MxDs
@@ -437,7 +445,7 @@ void MEDDLY::copy_MT::_compute(int L, unsigned in,
             res[0].set(cv);
             res[1].setN(cp);
         }
-        ct->addCT(key, res);
+        if (!direct) ct->addCT(key, res);
 
 
         //
